@@ -85,12 +85,16 @@ package keeper
 //@ loop #2
 //@   invariant true
 
+// ... and the entry exported for an epoch holds as many record keys as are stored for THAT epoch (nothing carried over
+// from the epochs exported before it).
 //@ func (Keeper).GetAllUndelegationsToMature
+//@   flag pure=SafeUint64ToInt64,Encode
 //@   before[C18.gautm.prefix] KVStorePrefixIterator requires arg_prefix == bytelit(g("x/dogfood/types.UnbondingReleaseMaturityBytePrefix"))
 //@ loop #1
 //@   invariant true
+//@   step[C18.gautm.own] len(res) == len(prev_res) + 1 && len(res[len(prev_res)].UndelegationRecordKeys) == len(res_GetList_0)
 //@ loop #2
-//@   invariant true
+//@   invariant[C18.gautm.own] -1 <= rangeindex && rangeindex < len(res_GetList_0) && len(subRes) == rangeindex + 1
 
 // ---------------------------------------------------------------------------------------------
 // C16: the three per-epoch queues (opt-outs to finish, consensus addresses to prune, undelegations to mature) and
@@ -241,3 +245,25 @@ package keeper
 // in this epoch (which is then still validating) is in the active validator set.
 //@   before[C07.aokri.prevactive] CompleteOperatorKeyRemovalForChainID requires defined(res_GetOperatorPrevConsKeyForChainID_0) &&
 //@        (res_GetOperatorPrevConsKeyForChainID_0 ==> !res_GetExocoreValidator_1)
+
+// C04 (everything at risk at the infraction height is slashed: the undelegations started at or after it): the infraction
+// reported through the staking interface is handed to the operator module unchanged - the operator the consensus
+// address resolves to, the reported height (the filter "started at or after the infraction" is applied to THIS height),
+// power, factor and kind.
+//@ func (Keeper).SlashWithInfractionReason
+//@   flag noframe
+//@   flag pure=ChainIDWithoutRevision,GetOperatorAddressForChainIDAndConsAddr,NewInt
+//@   flag havoc=operatorKeeper.SlashWithInfractionReason,OperatorKeeper.SlashWithInfractionReason,Keeper).SlashWithInfractionReason
+//@   before[C04.dswir.through] SlashWithInfractionReason requires res_GetOperatorAddressForChainIDAndConsAddr_0 &&
+//@        arg2 == res_GetOperatorAddressForChainIDAndConsAddr_1 && arg3 == infractionHeight && arg4 == power && arg5 == slashFactor && arg6 == infraction
+
+// C16 (an undelegation from an operator that is opting out matures together with the opt-out; one that finds no finish
+// epoch is not held): the finish epoch of an operator is what is stored for it, and "nothing stored" is reported as -1
+// (the value AfterUndelegationStarted tests for), never as a real epoch.
+//@ define ooFinishRaw(c, op) = get(c, "dogfood", cat(bytelit(g("x/dogfood/types.OperatorOptOutFinishEpochBytePrefix")), op))
+//@ func (Keeper).GetOperatorOptOutFinishEpoch
+//@   flag pure=OperatorOptOutFinishEpochKey
+//@   before[C16.gooofe.key]    KVStore.Get requires defined(res_OperatorOptOutFinishEpochKey_0) && arg0 == res_OperatorOptOutFinishEpochKey_0
+//@   ensures[C16.gooofe.absent] res_Get_0 == nil ==> result == -1
+//@   ensures[C16.gooofe.stored] res_Get_0 != nil && be2u64(res_Get_0) < 9223372036854775808 ==> result == be2u64(res_Get_0)
+//@   ensures[C16.gooofe.read]   state(ctx) == old(state(ctx))
